@@ -233,6 +233,9 @@ func (w *world) spec(key string) Spec {
 		}
 	}
 	s.Batch = next(nBatchers)
+	if w.c.OneBatcher {
+		s.Batch = 0
+	}
 	if r := next(100); r < w.c.PErr {
 		s.Out = "err"
 	} else if r < w.c.PErr+w.c.PNull {
@@ -532,7 +535,7 @@ func resolve(kind byte) func(graphql.FieldContext) (interface{}, error) {
 			case 'l':
 				xs := make([]interface{}, sp.N)
 				for j := range xs {
-					if mix(w.c.Seed, key+"#nil"+strconv.Itoa(j))%6 != 0 {
+					if w.c.NoNil || mix(w.c.Seed, key+"#nil"+strconv.Itoa(j))%6 != 0 {
 						xs[j] = &node{key: key + "[" + strconv.Itoa(j) + "]"}
 					}
 				}
